@@ -457,6 +457,9 @@ class Blockwise(Expr):
     operation = None
     _keyword_only = []
     _projection_passthrough = False
+    # Output partition i is computed from partition i of every (non-broadcasted)
+    # dependency. Subclasses that only reuse the Blockwise machinery say False.
+    _is_partitionwise = True
 
     @functools.cached_property
     def _meta(self):
@@ -2744,8 +2747,12 @@ class Partitions(Expr):
     def _simplify_down(self):
         from dask_expr import SetIndexBlockwise
 
-        if isinstance(self.frame, Blockwise) and not isinstance(
-            self.frame, (BlockwiseIO, Fused, SetIndexBlockwise, MapOverlap)
+        if (
+            isinstance(self.frame, Blockwise)
+            and self.frame._is_partitionwise
+            and not isinstance(
+                self.frame, (BlockwiseIO, Fused, SetIndexBlockwise, MapOverlap)
+            )
         ):
             operands = [
                 (
@@ -2981,7 +2988,11 @@ def are_co_aligned(*exprs):
 
 
 def is_valid_blockwise_op(expr):
-    return isinstance(expr, Blockwise) and not isinstance(expr, (FromPandas, FromArray))
+    return (
+        isinstance(expr, Blockwise)
+        and not isinstance(expr, (FromPandas, FromArray))
+        and expr._is_partitionwise
+    )
 
 
 def optimize_blockwise_fusion(expr):
